@@ -47,4 +47,228 @@ theorem loadBlocks_shape (file : String) : ∀ (todo : Nat) (s : List Char) (acc
         simp only [List.length_cons] at this
         exact ⟨by omega, this.2⟩
 
+/-! ### positional records: kissel_pe.dat (CONFIGURATION record) and comptonprofiles.dat (occupancy record)
+
+These two files carry no names: a value is designated by its POSITION — block number = atomic number, place in the record =
+sub-shell.  `LfSeq k s w s'` says "`k` consecutive `%lf` conversions starting at stream position `s` deliver the values `w` and
+leave the stream at `s'`"; `nthLf i s` is the `i`-th of them. -/
+
+inductive LfSeq : Nat → List Char → List Dec → List Char → Prop
+  | nil (s : List Char) : LfSeq 0 s [] s
+  | cons {k : Nat} {s s1 s' : List Char} {a : Dec} {w : List Dec} :
+      scanDbl s = .ok a s1 → LfSeq k s1 w s' → LfSeq (k + 1) s (a :: w) s'
+
+/-- the value of the `i`-th (0-based) `%lf` conversion from `s` on -/
+def nthLf : Nat → List Char → Option Dec
+  | 0, s => match scanDbl s with
+    | .ok a _ => some a
+    | _ => none
+  | i + 1, s => match scanDbl s with
+    | .ok _ s1 => nthLf i s1
+    | _ => none
+
+theorem LfSeq.length {k : Nat} {s s' : List Char} {w : List Dec} (h : LfSeq k s w s') : w.length = k := by
+  induction h with
+  | nil => rfl
+  | cons _ _ ih => simp [ih]
+
+theorem LfSeq.get {k : Nat} {s s' : List Char} {w : List Dec} (h : LfSeq k s w s') :
+    ∀ i, i < k → w[i]? = nthLf i s := by
+  induction h with
+  | nil => intro i hi; omega
+  | cons hs _ ih =>
+    intro i hi
+    cases i with
+    | zero => simp [nthLf, hs]
+    | succ j =>
+      simp only [List.getElem?_cons_succ, nthLf, hs]
+      exact ih j (by omega)
+
+theorem readVals_ok (file : String) : ∀ (k : Nat) (s : List Char) (acc vs : List Dec) (s' : List Char),
+    readVals file k s acc = .ok (vs, s') → ∃ w, vs = acc.reverse ++ w ∧ LfSeq k s w s'
+  | 0, s, acc, vs, s', h => by
+    simp only [readVals, Except.ok.injEq, Prod.mk.injEq] at h
+    exact ⟨[], by simp [h.1], by rw [← h.2]; exact LfSeq.nil s⟩
+  | k + 1, s, acc, vs, s', h => by
+    unfold readVals at h
+    split at h
+    · simp at h
+    · simp at h
+    · rename_i a s1 hs
+      obtain ⟨w, hw, hl⟩ := readVals_ok file k s1 (a :: acc) vs s' h
+      exact ⟨a :: w, by simp [hw], LfSeq.cons hs hl⟩
+
+/-- the loop of kissel_pe.dat as a relation: the blocks it delivers, each with its count token, its rows, its CONFIGURATION
+record (the `K` values following the rows) and its sub-shell tables, in file order; it stops at end of data or after `todo` blocks -/
+inductive KisselBlocks (file : String) (K : Nat) : Nat → List Char → List KisselBlock → Prop
+  | limit (s : List Char) : KisselBlocks file K 0 s []
+  | eof {todo : Nat} {s : List Char} : scanIntI s = .fail → KisselBlocks file K (todo + 1) s []
+  | block {todo : Nat} {s s1 s2 s3 s4 : List Char} {n : Int} {rows : List Row} {cfg : List Dec} {sh : List KisselShell}
+      {rest : List KisselBlock} :
+      scanIntI s = .ok n s1 → readRows file n.toNat s1 [] = .ok (rows, s2) → LfSeq K s2 cfg s3 →
+      readKisselShells file K s3 [] = .ok (sh, s4) → KisselBlocks file K todo s4 rest →
+      KisselBlocks file K (todo + 1) s (⟨n, rows, cfg, sh⟩ :: rest)
+
+theorem loadKissel_blocks (file : String) (K : Nat) : ∀ (todo : Nat) (s : List Char) (acc bs : List KisselBlock),
+    loadKissel file K todo s acc = .ok bs → ∃ new, bs = acc.reverse ++ new ∧ KisselBlocks file K todo s new
+  | 0, s, acc, bs, h => by
+    simp only [loadKissel, Except.ok.injEq] at h
+    exact ⟨[], by simp [h], KisselBlocks.limit s⟩
+  | todo + 1, s, acc, bs, h => by
+    unfold loadKissel at h
+    split at h
+    · rename_i hs
+      simp only [Except.ok.injEq] at h
+      exact ⟨[], by simp [h], KisselBlocks.eof hs⟩
+    · simp at h
+    · rename_i n s1 hs
+      cases hr : readRows file n.toNat s1 [] with
+      | error f => rw [hr] at h; cases h
+      | ok p1 =>
+        obtain ⟨rows, s2⟩ := p1
+        cases hv : readVals file K s2 [] with
+        | error f => simp [hr, hv, bind, Except.bind] at h
+        | ok p2 =>
+          obtain ⟨cfg, s3⟩ := p2
+          cases hk : readKisselShells file K s3 [] with
+          | error f => simp [hr, hv, hk, bind, Except.bind] at h
+          | ok p3 =>
+            obtain ⟨sh, s4⟩ := p3
+            simp only [hr, hv, hk, bind, Except.bind] at h
+            have h' : loadKissel file K todo s4 (⟨n, rows, cfg, sh⟩ :: acc) = .ok bs := h
+            obtain ⟨new, hnew, hb⟩ := loadKissel_blocks file K todo s4 _ bs h'
+            obtain ⟨w, hw, hl⟩ := readVals_ok file K s2 [] cfg s3 hv
+            simp only [List.reverse_nil, List.nil_append] at hw
+            subst hw
+            exact ⟨⟨n, rows, cfg, sh⟩ :: new, by simp [hnew], KisselBlocks.block hs hr hl hk hb⟩
+
+/-- where block `j` (0-based) of kissel_pe.dat starts: after `j` complete blocks -/
+inductive KisselStart (file : String) (K : Nat) : Nat → List Char → List Char → Prop
+  | zero (s : List Char) : KisselStart file K 0 s s
+  | succ {j : Nat} {s s1 s2 s3 s4 pos : List Char} {n : Int} {rows : List Row} {cfg : List Dec} {sh : List KisselShell} :
+      scanIntI s = .ok n s1 → readRows file n.toNat s1 [] = .ok (rows, s2) → LfSeq K s2 cfg s3 →
+      readKisselShells file K s3 [] = .ok (sh, s4) → KisselStart file K j s4 pos → KisselStart file K (j + 1) s pos
+
+/-- **block `j` of the file is element `j+1`'s block**: its count is the `%i` token at the block's start, its rows follow, and its
+CONFIGURATION record is the `K` `%lf` tokens that follow the rows -/
+theorem KisselBlocks.get {file : String} {K todo : Nat} {s : List Char} {bs : List KisselBlock} (h : KisselBlocks file K todo s bs) :
+    ∀ (j : Nat) (hj : j < bs.length), ∃ pos s1 s2 s3, KisselStart file K j s pos ∧ scanIntI pos = .ok bs[j].n s1 ∧
+      readRows file bs[j].n.toNat s1 [] = .ok (bs[j].rows, s2) ∧ LfSeq K s2 bs[j].config s3 := by
+  induction h with
+  | limit s => intro j hj; simp at hj
+  | eof _ => intro j hj; simp at hj
+  | block hs hr hl hk _ ih =>
+    intro j hj
+    cases j with
+    | zero => exact ⟨_, _, _, _, KisselStart.zero _, hs, hr, hl⟩
+    | succ i =>
+      obtain ⟨pos, t1, t2, t3, hst, h1, h2, h3⟩ := ih i (by simpa using hj)
+      exact ⟨pos, t1, t2, t3, KisselStart.succ hs hr hl hk hst, by simpa using h1, by simpa using h2, by simpa using h3⟩
+
+theorem KisselBlocks.length_le {file : String} {K todo : Nat} {s : List Char} {bs : List KisselBlock}
+    (h : KisselBlocks file K todo s bs) : bs.length ≤ todo := by
+  induction h with
+  | limit => simp
+  | eof => simp
+  | block _ _ _ _ _ ih => simp; omega
+
+/-! comptonprofiles.dat: the occupancy record -/
+
+/-- the loop of comptonprofiles.dat as a relation (what follows the occupancy record of a block is summarised by the position
+`s'` at which the next block starts) -/
+inductive ComptonBlocks (file : String) (nslots : Nat) : Nat → List Char → List ComptonBlock → Prop
+  | limit (s : List Char) : ComptonBlocks file nslots 0 s []
+  | eof1 {todo : Nat} {s : List Char} : scanInt s = .fail → ComptonBlocks file nslots (todo + 1) s []
+  | eof2 {todo : Nat} {s s1 : List Char} {ns : Int} : scanInt s = .ok ns s1 → scanInt s1 = .fail → ComptonBlocks file nslots (todo + 1) s []
+  | block {todo : Nat} {s s1 s2 s3 s' : List Char} {b : ComptonBlock} {rest : List ComptonBlock} :
+      scanInt s = .ok b.nshells s1 → scanInt s1 = .ok b.npz s2 → LfSeq b.nshells.toNat s2 b.uoccup s3 →
+      ComptonBlocks file nslots todo s' rest → ComptonBlocks file nslots (todo + 1) s (b :: rest)
+
+theorem loadCompton_blocks (file : String) (nslots : Nat) : ∀ (todo : Nat) (s : List Char) (acc bs : List ComptonBlock),
+    loadCompton file nslots todo s acc = .ok bs → ∃ new, bs = acc.reverse ++ new ∧ ComptonBlocks file nslots todo s new
+  | 0, s, acc, bs, h => by
+    simp only [loadCompton, Except.ok.injEq] at h
+    exact ⟨[], by simp [h], ComptonBlocks.limit s⟩
+  | todo + 1, s, acc, bs, h => by
+    unfold loadCompton at h
+    split at h
+    · rename_i hs
+      simp only [Except.ok.injEq] at h
+      exact ⟨[], by simp [h], ComptonBlocks.eof1 hs⟩
+    · simp at h
+    · rename_i ns s1 hs
+      split at h
+      · rename_i hs1
+        simp only [Except.ok.injEq] at h
+        exact ⟨[], by simp [h], ComptonBlocks.eof2 hs hs1⟩
+      · simp at h
+      · rename_i np s2 hs1
+        cases h1 : readVals file ns.toNat s2 [] with
+        | error f => simp [h1, bind, Except.bind] at h
+        | ok p1 =>
+          obtain ⟨uo, s3⟩ := p1
+          cases h2 : readVals file np.toNat s3 [] with
+          | error f => simp [h1, h2, bind, Except.bind] at h
+          | ok p2 =>
+            obtain ⟨pz, s4⟩ := p2
+            cases h3 : readVals file np.toNat s4 [] with
+            | error f => simp [h1, h2, h3, bind, Except.bind] at h
+            | ok p3 =>
+              obtain ⟨tot, s5⟩ := p3
+              cases h4 : readVals file np.toNat s5 [] with
+              | error f => simp [h1, h2, h3, h4, bind, Except.bind] at h
+              | ok p4 =>
+                obtain ⟨tot2, s6⟩ := p4
+                cases h5 : readPartials file nslots np.toNat uo 0 s6 [] with
+                | error f => simp [h1, h2, h3, h4, h5, bind, Except.bind] at h
+                | ok p5 =>
+                  obtain ⟨q1, s7⟩ := p5
+                  cases h6 : readPartials file nslots np.toNat uo 0 s7 [] with
+                  | error f => simp [h1, h2, h3, h4, h5, h6, bind, Except.bind] at h
+                  | ok p6 =>
+                    obtain ⟨q2, s8⟩ := p6
+                    simp only [h1, h2, h3, h4, h5, h6, bind, Except.bind] at h
+                    obtain ⟨new, hnew, hb⟩ := loadCompton_blocks file nslots todo s8 _ bs h
+                    obtain ⟨w, hw, hl⟩ := readVals_ok file ns.toNat s2 [] uo s3 h1
+                    simp only [List.reverse_nil, List.nil_append] at hw
+                    subst hw
+                    exact ⟨⟨ns, np, uo, pz, tot, tot2, q1, q2⟩ :: new, by simp [hnew],
+                      ComptonBlocks.block (b := ⟨ns, np, uo, pz, tot, tot2, q1, q2⟩) hs hs1 hl hb⟩
+
+/-- where block `j` (0-based) of comptonprofiles.dat starts -/
+inductive ComptonStart (file : String) (nslots : Nat) : Nat → List Char → List Char → Prop
+  | zero (s : List Char) : ComptonStart file nslots 0 s s
+  | succ {j todo : Nat} {s pos : List Char} {b : ComptonBlock} {rest : List ComptonBlock} {s1 s2 s3 s' : List Char} :
+      scanInt s = .ok b.nshells s1 → scanInt s1 = .ok b.npz s2 → LfSeq b.nshells.toNat s2 b.uoccup s3 →
+      ComptonBlocks file nslots todo s' rest → ComptonStart file nslots j s' pos → ComptonStart file nslots (j + 1) s pos
+
+theorem ComptonBlocks.get {file : String} {nslots todo : Nat} {s : List Char} {bs : List ComptonBlock}
+    (h : ComptonBlocks file nslots todo s bs) :
+    ∀ (j : Nat) (hj : j < bs.length), ∃ pos s1 s2 s3, ComptonStart file nslots j s pos ∧ scanInt pos = .ok bs[j].nshells s1 ∧
+      scanInt s1 = .ok bs[j].npz s2 ∧ LfSeq bs[j].nshells.toNat s2 bs[j].uoccup s3 := by
+  induction h with
+  | limit s => intro j hj; simp at hj
+  | eof1 _ => intro j hj; simp at hj
+  | eof2 _ _ => intro j hj; simp at hj
+  | block hs hs1 hl hb ih =>
+    intro j hj
+    cases j with
+    | zero => exact ⟨_, _, _, _, ComptonStart.zero _, hs, hs1, hl⟩
+    | succ i =>
+      obtain ⟨pos, t1, t2, t3, hst, h1, h2, h3⟩ := ih i (by simpa using hj)
+      exact ⟨pos, t1, t2, t3, ComptonStart.succ hs hs1 hl hb hst, by simpa using h1, by simpa using h2, by simpa using h3⟩
+
+/-! flat indices of a `[rows][K]` table -/
+
+theorem flat_div_mod {K Z s : Nat} (hs : s < K) : (Z * K + s) / K = Z ∧ (Z * K + s) % K = s := by
+  have hK : 0 < K := by omega
+  constructor
+  · rw [Nat.mul_comm, Nat.mul_add_div hK, Nat.div_eq_of_lt hs, Nat.add_zero]
+  · rw [Nat.mul_comm, Nat.mul_add_mod, Nat.mod_eq_of_lt hs]
+
+theorem flat_lt {K Z s n : Nat} (hs : s < K) (hZ : Z < n) : Z * K + s < n * K :=
+  calc Z * K + s < Z * K + K := by omega
+    _ = (Z + 1) * K := by rw [Nat.add_mul, Nat.one_mul]
+    _ ≤ n * K := Nat.mul_le_mul_right _ hZ
+
 end Loader
